@@ -17,6 +17,10 @@ func init() {
 	core.Register(&core.Check{Prop: "C06", Level: "model_checking", Run: run, Replay: replay})
 }
 
+var timeoutScale = 1
+
+func scaled(d time.Duration) time.Duration { return d * time.Duration(timeoutScale) }
+
 func currentCap() int { return collector.PreAllocSizeSkipCap }
 
 func run(c *core.Ctx) error {
@@ -31,6 +35,14 @@ func run(c *core.Ctx) error {
 	workers := 8
 	if os.Getenv("VERIF_TLC_WORKERS") != "" {
 		fmt.Sscanf(os.Getenv("VERIF_TLC_WORKERS"), "%d", &workers)
+	}
+
+	// VERIF_TIMEOUT_SCALE=<n> multiplies every TLC time limit (for runs on a heavily shared machine)
+	if v := os.Getenv("VERIF_TIMEOUT_SCALE"); v != "" {
+		fmt.Sscanf(v, "%d", &timeoutScale)
+		if timeoutScale < 1 {
+			timeoutScale = 1
+		}
 	}
 
 	// development aid: VERIF_C06_PHASES=side,a,sim,b restricts the phases (default: all)
@@ -48,7 +60,7 @@ func run(c *core.Ctx) error {
 	// 1. the model decides: side configs (heap store, paging corollaries)
 	side := func(cfg string, w int, to time.Duration) {
 		defer wg.Done()
-		c.ModelCheck("Collector", cfg, core.Workers(w), core.Timeout(to))
+		c.ModelCheck("Collector", cfg, core.Workers(w), core.Timeout(scaled(to)))
 	}
 	if phase("side") {
 		wg.Add(2)
@@ -89,12 +101,12 @@ func run(c *core.Ctx) error {
 		for i := range seeds {
 			seeds[i] = c.Seed*1000 + int64(i)
 		}
-		if err := ea.simulateAndReplay("Collector", "Collector_sim.cfg", c.Pick(120, 1500), 40, seeds, &sims); err != nil {
+		if err := ea.simulateAndReplay("Collector", "Collector_sim.cfg", c.Pick(120, 800), 40, seeds, &sims); err != nil {
 			errs <- err
 		}
 	}()
 	if phase("a") {
-		if err := ea.dumpAndReplay("Collector", mainCfg, workers, to); err != nil {
+		if err := ea.dumpAndReplay("Collector", mainCfg, workers, scaled(to)); err != nil {
 			errs <- err
 		}
 	}
